@@ -70,7 +70,7 @@ func TestVerifC03(t *testing.T) {
 	var jobs []job
 	for _, root := range roots {
 		for _, ap := range vAssetPaths(root) {
-			if !vExtraWanted(root, ap, "x_two_audio") {
+			if !vExtraWanted(root, ap, "x_two_audio", "x_audio_441") {
 				continue
 			}
 			if vTimeOffsetAsset(ap) {
